@@ -4,10 +4,12 @@
 //
 // Protocol lines:
 //
-//	run <tee> <state0> <rr> <rt> <others> <clear> <prot> <oracle>  -> <trace> <outcome>
+//	run <tee> <explicit> <domain> <state0> <rr> <rt> <others> <clear> <prot> <oracle>  -> <trace> <outcome>
 //	sni <explicit> <sessions>                                      -> <names>
 //
 // tee: 0 off, 1 TeeIn, 2 TeeOut, 3 both (the model only distinguishes 0 / not 0).
+// explicit: StartTLS(cfg) with ServerName explicit.example / StartTLS(nil).
+// domain: index of the domain of the session's own address.
 // state0: initial SessionState (decimal).  rr, rt: two behaviours of features.go
 // that C02 does not constrain and that are probed once per run (see ctx).
 // others: id.nec.proh.negotiable,…  — instrumented features besides STARTTLS.
@@ -17,7 +19,8 @@
 // in order, with the scripted results of their Negotiate callbacks (the model
 // checks each pick against the set its selection rule allows).
 // trace: h s o<id> = header / STARTTLS request / feature marker written in
-// clear text, H S O<id> = the same inside the TLS layer.
+// clear text, H S O<id> = the same inside the TLS layer, Nd<k> / Nex = a
+// ClientHello naming domain k / the explicit name left during NewSession.
 // outcome: done.<state>.<layer>.<hs> (layer: 1 when a probe written through the
 // session's connection does not show up in clear on the raw wire; hs:
 // Session.ConnectionState().HandshakeComplete) or err.<class>.
@@ -114,7 +117,7 @@ func answerClass(sc scenario) string {
 }
 
 func (c *ctx) line(sc scenario, res result) string {
-	return fmt.Sprintf("run %d %d %s %s %s %s %s %s", sc.tee, sc.state0, common.B(c.rr), common.B(c.rt),
+	return fmt.Sprintf("run %d %s %d %d %s %s %s %s %s %s", sc.tee, common.B(sc.explicit), sc.domain, sc.state0, common.B(c.rr), common.B(c.rt),
 		sc.othersField(), sc.clearField(), sc.protField(), res.oracleField())
 }
 
@@ -204,14 +207,19 @@ func (c *ctx) check(sc scenario, tees []int, class string) (base result) {
 			// that when several cached features are selectable: look for a run without
 			// the tee that made the same choices.
 			found := false
-			for k := 0; k < 100 && !found; k++ {
+			tries := 400
+			if c.teeNegFails >= 8 {
+				tries = 0 // a broken tree: do not spend time on further reruns
+			}
+			for k := 0; k < tries && !found; k++ {
 				again := c.exec(sc, nil)
 				if again.oracleField() == res.oracleField() {
 					cmp, found = again, true
 				}
 			}
 			if !found {
-				r.Fail("tee-transparent", fmt.Sprintf("negotiated/%s", key), both, fmt.Sprintf("tee=%d negotiated %s, tee off %s (in 101 runs)", t, res.oracleField(), base.oracleField()))
+				c.teeNegFails++
+				r.Fail("tee-transparent", fmt.Sprintf("negotiated/%s", key), both, fmt.Sprintf("tee=%d negotiated %s, tee off %s (no tee-off run with these choices in %d reruns)", t, res.oracleField(), base.oracleField(), tries))
 				continue
 			}
 			r.Hist["tee-compare-after-rerun"]++
